@@ -491,6 +491,14 @@ fn scripts() -> Vec<(&'static str, Vec<Step>)> {
         ("B,[]", vec![c(vec![&b]), Step::Certificate(vec![]), Step::KeyExchange]),
         ("[],X", vec![Step::Certificate(vec![]), c(vec![&x]), Step::KeyExchange]),
         ("B,KE,KE", vec![c(vec![&b]), Step::KeyExchange, Step::KeyExchange]),
+        // the genuine server used as a signing oracle: its certificate and its genuinely signed key
+        // exchange are relayed, the attacker's own key exchange is added before / after / around it
+        ("B,HKE", vec![c(vec![&b]), Step::HonestKeyExchange]),
+        ("B,HKE,KE", vec![c(vec![&b]), Step::HonestKeyExchange, Step::KeyExchange]),
+        ("B,KE,HKE", vec![c(vec![&b]), Step::KeyExchange, Step::HonestKeyExchange]),
+        ("B,HKE,KE,HKE", vec![c(vec![&b]), Step::HonestKeyExchange, Step::KeyExchange, Step::HonestKeyExchange]),
+        ("B,HKE,X,KE", vec![c(vec![&b]), Step::HonestKeyExchange, c(vec![&x]), Step::KeyExchange]),
+        ("HKE,B,KE", vec![Step::HonestKeyExchange, c(vec![&b]), Step::KeyExchange]),
     ]
 }
 
@@ -514,7 +522,7 @@ fn run_scripted(script: &[Step], fp: Fp, seed: u64) -> Option<SObs> {
             let cfg_a = EndCfg { with_sctp: false, channels: vec![], expected_fingerprint: fp_of(fp, &certs.b), rtc: sim::default_rtc() };
             let mut a = sim::mk_end(Side::A, certs.a.clone(), net_tx.clone(), &cfg_a).await;
             drop(net_tx);
-            let mut srv = ScriptedServer::new(&certs.x.private_key, script);
+            let mut srv = ScriptedServer::new(&certs.x.private_key, script).with_honest_key(&certs.b.private_key);
             let mut buf = Vec::new();
             let mut quiet: Option<u64> = None;
             loop {
